@@ -117,11 +117,12 @@ pub fn c01(ctx: &Ctx) -> (CheckMeta, Outcome) {
             }));
         }
     }
-    let out = run_all(tasks, threads());
+    let mut out = run_all(tasks, threads());
+    out.merge(long_histories("C01", ctx, false));
     let meta = CheckMeta {
         property: "C01".into(),
         level: "model_checking".into(),
-        rule: "explicit-state BFS over the real BufBitWriter (recording backend; state = Debug string (buffer, space_left) + model pending bits; rebuilt by replaying the shortest history) for E x W in {8,16,32,64,128}; alphabet write_bits(n 0..=64 x 4 value patterns x {clean, bit n set, all bits >= n set}), write_unary(0..=2W+1, 3W-1, 3W, 3W+1, 5W+3), flush; every transition: return value and words delivered during the step vs the bit-vector model; every node's history is replayed on vec/vecref/slice/adapter/adapter-over-a-3-byte-sink/rec backends with flush, flush;flush, into_inner, drop and the whole byte image compared (traces_validated_against_impl counts these replays)".into(),
+        rule: "explicit-state BFS over the real BufBitWriter (recording backend; state = Debug string (buffer, space_left) + model pending bits; rebuilt by replaying the shortest history) for E x W in {8,16,32,64,128}; alphabet write_bits(n 0..=64 x 4 value patterns x {clean, bit n set, all bits >= n set}), write_unary(0..=2W+1, 3W-1, 3W, 3W+1, 5W+3), flush; every transition: return value and words delivered during the step vs the bit-vector model; every node's history is replayed on vec/vecref/slice/adapter/adapter-over-a-3-byte-sink/rec backends with flush, flush;flush, into_inner, drop and the whole byte image compared (traces_validated_against_impl counts these replays); plus long streams: unary codes of 32 767..70 001 zeros (thorough up to 262 149), alone, between writes and across a flush, and 1 200 fixed-width writes, on every real backend".into(),
         assumptions: vec!["reference model = canonical layout (harness/src/model.rs)".into(), "by parametricity in the WordWrite backend the writer's future depends on (buffer, space_left) only".into()],
     };
     (meta, out)
@@ -192,10 +193,11 @@ pub fn c12(ctx: &Ctx) -> (CheckMeta, Outcome) {
     }
     let mut out = run_all(tasks, threads());
     out.merge(crate::props::readers::c12_read(ctx));
+    out.merge(long_histories("C12", ctx, true));
     let meta = CheckMeta {
         property: "C12".into(),
         level: "model_checking".into(),
-        rule: "write side: BFS over the real BufBitWriter for E x W in {8..128}: level 0 reaches every buffer fill level (every starting bit offset), then std::io::Write::write of every slice length 0..=40 (two byte patterns) and 41,47,48,49,63,64,65,100, then further byte writes / boundary bit writes / flush / io::Write::flush; returned count must equal the slice length, delivered words and final images on all real backends must equal the model (byte = 8 stream bits in stream order); read side: BFS to the fixpoint of every reader kind over zero-extended/strict/Cursor backends with io::Read of every length 0..=40 at every reachable state".into(),
+        rule: "write side: BFS over the real BufBitWriter for E x W in {8..128}: level 0 reaches every buffer fill level (every starting bit offset), then std::io::Write::write of every slice length 0..=40 (two byte patterns) and 41,47,48,49,63,64,65,100, then further byte writes / boundary bit writes / flush / io::Write::flush; returned count must equal the slice length, delivered words and final images on all real backends must equal the model (byte = 8 stream bits in stream order); read side: BFS to the fixpoint of every reader kind over zero-extended/strict/Cursor backends with io::Read of every length 0..=40 at every reachable state; plus single byte writes of 4 097, 65 535, 65 536, 65 537 and 100 003 bytes (thorough up to 2^20+1) at bit offsets 0 and 3 on every real backend".into(),
         assumptions: vec!["reference model = canonical layout".into()],
     };
     (meta, out)
@@ -260,12 +262,13 @@ pub fn c08_dest(ctx: &Ctx) -> Outcome {
 pub fn c08(ctx: &Ctx) -> (CheckMeta, Outcome) {
     let mut out = crate::props::readers::c08_source(ctx);
     out.merge(c08_dest(ctx));
+    out.merge(crate::props::readers::c08_long(ctx));
     let variant = if cfg!(feature = "no_copy_impls") { "generic copy paths (no_copy_impls)" } else { "optimised copy paths" };
     out.cov.notes.push(format!("this binary was built with the {}", variant));
     let meta = CheckMeta {
         property: "C08".into(),
         level: "model_checking".into(),
-        rule: "the reader x writer product is cut along the copy step. Source view: BFS to the FIXPOINT of the real reader (Buf8..Buf64, unbuffered; zero-extended, strict, Cursor backends; Count wrapper) whose alphabet contains, besides boundary reads/peeks/skips, all table and table-free code reads and seeks, copy_to/copy_from of n bits (0..=W+2 (thorough 0..=3W+2), 2W-1..2W+1, 3W+2, 5W+7, 8W, 200) into a fresh writer of every word size 8..128 pre-filled with several bit counts; the destination's whole image (prefill ++ copied bits ++ sentinel) is compared with the model and the source continues as an ordinary BFS state, so EVERY continuation of EVERY post-copy state is explored. Destination view: BFS (depth 3) over the real writer: fill level, copy-in from a fresh source reader of every kind advanced by k bits and optionally peeked (more than one word buffered), continuation writes; delivered words and final images on real backends vs the model. Both views are run on the build with the optimised copy paths and on the build with --features no_copy_impls".into(),
+        rule: "the reader x writer product is cut along the copy step. Source view: BFS to the FIXPOINT of the real reader (Buf8..Buf64, unbuffered; zero-extended, strict, Cursor backends; Count wrapper) whose alphabet contains, besides boundary reads/peeks/skips, all table and table-free code reads and seeks, copy_to/copy_from of n bits (0..=W+2 (thorough 0..=3W+2), 2W-1..2W+1, 3W+2, 5W+7, 8W, 200) into a fresh writer of every word size 8..128 pre-filled with several bit counts; the destination's whole image (prefill ++ copied bits ++ sentinel) is compared with the model and the source continues as an ordinary BFS state, so EVERY continuation of EVERY post-copy state is explored. Destination view: BFS (depth 3) over the real writer: fill level, copy-in from a fresh source reader of every kind advanced by k bits and optionally peeked (more than one word buffered), continuation writes; delivered words and final images on real backends vs the model. Long-copy grid: single copies of B words + r bits (B in 127,128,129,256,1024 (thorough: 15 values from 63 to 1025), word = source or destination word, r in 0,1,5,21,W-1) from every source kind into every destination word size, 3 destination fills, 2 source offsets, both directions, with the source's position and next bits checked. All three are run on the build with the optimised copy paths and on the build with --features no_copy_impls".into(),
         assumptions: vec!["reference model = canonical layout".into()],
     };
     (meta, out)
@@ -328,8 +331,79 @@ pub fn c14(ctx: &Ctx) -> (CheckMeta, Outcome) {
     let meta = CheckMeta {
         property: "C14".into(),
         level: "model_checking".into(),
-        rule: "the reader BFS (to the fixpoint) and the writer BFS (depth 3) are re-run with the object wrapped in CountBitReader/CountBitWriter and DbgBitReader/DbgBitWriter; alphabet = every trait method reachable through the wrapper: read_bits/peek/skip/unary, the parameterless gamma/delta/zeta methods, every table-parameterised variant (which reach the stream through the wrapper's peek_bits/skip_bits_after_peek), omega, pi, rice, golomb, exp-golomb, minimal binary, vbyte, copy_to/copy_from, flush; oracle: values, delivered words and positions identical to the unwrapped model; bits_read = bits consumed (= inner bit_pos) and bits_written = bits written by operations, after EVERY transition including flushes".into(),
+        rule: "the reader BFS (to the fixpoint) and the writer BFS (depth 3) are re-run with the object wrapped in CountBitReader/CountBitWriter and DbgBitReader/DbgBitWriter; alphabet = every trait method reachable through the wrapper: read_bits/peek/skip/unary, the parameterless gamma/delta/zeta methods, every table-parameterised variant (which reach the stream through the wrapper's peek_bits/skip_bits_after_peek), omega, pi, rice, golomb, exp-golomb, minimal binary, vbyte, copy_to/copy_from, flush; oracle: values, delivered words and positions identical to the unwrapped model; bits_read = bits consumed since the wrapper was created (= inner bit_pos when created at 0; the wrapper is also created on a reader that has already consumed 13 bits, and seeks through the wrapper are explored to depth 3 with the positions checked) and bits_written = bits written by operations, after EVERY transition including flushes".into(),
         assumptions: vec!["flush padding is not counted as written bits (flush reports pending bits, which were counted when written)".into()],
     };
     (meta, out)
+}
+
+
+/// Long streams (tens of thousands of bits from a handful of operations), checked on every real
+/// backend and finisher: growth policies, buffer hand-over and final image length.
+pub fn long_histories(prop: &'static str, ctx: &Ctx, with_io: bool) -> Outcome {
+    use crate::report::Violation;
+    let mut tasks: Vec<Task> = vec![];
+    for e in End::BOTH {
+        for wbits in WBITS {
+            let thorough = ctx.thorough;
+            let seed = ctx.seed;
+            tasks.push(Box::new(move || {
+                let mut out = Outcome::new();
+                let cfg = format!("{}/long", cfg_id(e, wbits, ""));
+                out.cov.configs.insert(cfg.clone());
+                let pats = value_patterns(seed);
+                let mut hs: Vec<Vec<WOp>> = vec![];
+                let xs: Vec<u64> = if thorough { vec![4095, 4096, 8191, 32767, 32768, 32769, 40000, 65535, 65536, 70001, 262144 + 5] } else { vec![32767, 32768, 40000, 70001] };
+                if !with_io {
+                    for &x in &xs {
+                        hs.push(vec![WOp::Unary(x)]);
+                        hs.push(vec![WOp::WriteBits { v: pats[3] & 0x1FFF, n: 13 }, WOp::Unary(x), WOp::WriteBits { v: 0x55, n: 7 }]);
+                        hs.push(vec![WOp::Unary(x), WOp::Flush, WOp::Unary(x / 3), WOp::WriteBits { v: pats[2], n: 64 }]);
+                    }
+                    // many fixed-width writes
+                    let mut many = vec![];
+                    for i in 0..1200u64 {
+                        many.push(WOp::WriteBits { v: pats[3].rotate_left(i as u32) & mask(((i * 7) % 65) as u8), n: ((i * 7) % 65) as u8 });
+                    }
+                    hs.push(many);
+                } else {
+                    let lens: Vec<usize> = if thorough { vec![4095, 4096, 4097, 65535, 65536, 65537, 100_003, (1 << 20) + 1] } else { vec![4097, 65535, 65536, 65537, 100_003] };
+                    for &l in &lens {
+                        let bytes: Vec<u8> = (0..l).map(|i| (i as u8).wrapping_mul(0x6D).wrapping_add((i >> 8) as u8) | 1).collect();
+                        hs.push(vec![WOp::IoWrite(bytes.clone())]);
+                        hs.push(vec![WOp::WriteBits { v: 5, n: 3 }, WOp::IoWrite(bytes), WOp::WriteBits { v: 1, n: 2 }]);
+                    }
+                }
+                for h in &hs {
+                    let combos: Vec<(&str, &str)> = if thorough {
+                        REAL_BACKENDS.iter().flat_map(|b| FINISHERS.iter().map(move |f| (*b, *f))).collect()
+                    } else {
+                        vec![("vec", "into_inner"), ("vecref", "drop"), ("slice", "flush2"), ("adapter", "into_inner"), ("adapter3", "flush"), ("rec", "drop")]
+                    };
+                    for (backend, finisher) in combos {
+                        out.cov.transitions += h.len() as u64;
+                        out.cov.traces_validated += 1;
+                        out.cov.evaluations += 1;
+                        out.cov.nontrivial += 1;
+                        if let Err((symptom, detail)) = check_real(e, wbits, backend, finisher, h) {
+                            if out.violations.len() < 12 {
+                                let short: String = detail.chars().take(300).collect();
+                                out.violations.push(Violation {
+                                    property: prop.into(),
+                                    system: format!("writer-backend:{}:{}", backend, finisher),
+                                    config: cfg.clone(),
+                                    op_class: h.iter().map(|o| o.class()).max_by_key(|c| (*c == "write_unary" || *c == "io_write") as u8).unwrap_or("none").into(),
+                                    symptom,
+                                    detail: format!("long history of {} operations: {}", h.len(), short),
+                                    replay: if h.len() <= 4 && !with_io { replay_doc(e, wbits, "", backend, finisher, h) } else { serde_json::json!({"kind": "none", "note": "long history; re-run the check"}) },
+                                });
+                            }
+                        }
+                    }
+                }
+                out
+            }));
+        }
+    }
+    run_all(tasks, threads())
 }
